@@ -192,6 +192,16 @@ theorem pe_cancelFound (st : St) (a : Nat) (w : Watch) (l : List Nat) : PendExt 
   exact ((((pe_setListOf st _ _).trans (pe_cancelNotify _ a w)).trans (pe_cancelHook _ w.type w.evi)).trans (pe_free _ a)).trans
     (pe_cancelRest _ _)
 
+theorem pe_cancelDetached (st : St) (a : Nat) : PendExt st (cancelDetached st a) := by
+  unfold cancelDetached
+  exact (pe_cancelNotify st a _).trans (pe_setW _ _ _)
+
+theorem pe_laterPre (st : St) (a : Nat) : PendExt st (laterPre st a) := by
+  unfold laterPre
+  split
+  · exact (pe_setW _ _ _)
+  · exact PendExt.refl _
+
 theorem pe_watchCancel (st : St) (a : Nat) : PendExt st (watchCancel st a) := by
   unfold watchCancel
   split
@@ -203,7 +213,9 @@ theorem pe_watchCancel (st : St) (a : Nat) : PendExt st (watchCancel st a) := by
       · split
         · exact (pe_fail st _)
         · split
-          · exact PendExt.refl st
+          · split
+            · exact pe_cancelDetached st a
+            · exact PendExt.refl st
           · exact pe_cancelFound st a _ _
 
 
@@ -428,10 +440,12 @@ theorem pe_laterLoopT (l : List Nat) : ∀ st : St, PendExt st (laterLoopT st l)
     · split
       · exact (pe_fail _ _)
       · split
-        · exact pe_laterCb _ _
+        · exact (pe_free _ a).trans (ih _)
         · split
-          · exact (pe_laterCb _ _).trans (pe_fail _ _)
-          · exact ((pe_laterCb _ _).trans (pe_free _ a)).trans (ih _)
+          · exact ((pe_laterPre st a).trans (pe_laterCb _ a))
+          · split
+            · exact (((pe_laterPre st a).trans (pe_laterCb _ a))).trans (pe_fail _ _)
+            · exact ((((pe_laterPre st a).trans (pe_laterCb _ a))).trans (pe_free _ a)).trans (ih _)
 
 
 theorem pe_laterLoop (l : List Nat) (st : St) : PendExt st (laterLoop st l) := pe_laterLoopT l st
